@@ -288,7 +288,13 @@ func builtinMakeValidator(env *lisp.LEnv, args *lisp.LVal) *lisp.LVal {
 		if lname.Str != "lisp:typedef" {
 			return lisp.ErrorConditionf(BadArgs, "First argument must resolve to a string or typedef")
 		}
-		name = lname.UserData().Cells[0].Str
+		// The tag is only a name; a value can carry it without being a
+		// typedef (see LEnv.New), so the shape is checked before it is read.
+		def := lname.UserData()
+		if def.Type != lisp.LSExpr || len(def.Cells) != 2 || def.Cells[0].Type != lisp.LSymbol {
+			return lisp.ErrorConditionf(BadArgs, "First argument must resolve to a string or typedef")
+		}
+		name = def.Cells[0].Str
 		tag = name
 		taggedConstraints := []*lisp.LVal{typeValidator}
 		taggedConstraints = append(taggedConstraints, constraints...)
